@@ -166,7 +166,12 @@ fn prefix_function(args: &std::collections::HashMap<String, Value>) -> Result<Va
     let length = args.get("length").and_then(|v| v.as_u64()).unwrap_or(10) as usize;
 
     let prefix = if input.len() > length {
-        &input[..length]
+        // slicing inside a multi-byte character would panic
+        let mut end = length;
+        while !input.is_char_boundary(end) {
+            end -= 1;
+        }
+        &input[..end]
     } else {
         &input
     };
